@@ -154,9 +154,52 @@ def rule_output_bounds(P, name, rid):
         c = strip(b.term["cond"])
         if is_e(c, "bin") and c[1] == ">" and is_e(strip(c[2]), "incdec") and eq(strip(c[3]), ["var", "length", "param"]):
             ok = True
-    r.inst("ptr-loop", {"fn": name, "pointer_jumps_counted_against_length": ok})
-    if not ok:
-        r.bad("K4:%s:pointer-loop-unbounded" % name, "%s:%d" % (f.file, f.line), name, "compression-pointer jumps are not counted against the message length")
+    r.inst("ptr-loop", {"fn": name, "pointer_jumps_counted_against_length_in_one_expression": ok, "note": "how the jumps are counted is a matter of spelling; that the count stops a cycle is decided by the evaluation below"})
+    # ... and the count works: the function is evaluated on packets whose name runs into a compression-pointer cycle without labels; it has to give up, not spin
+    from .cmem import MEM0, mem_put, mem_hook
+    from .interp import run_all, normx
+    hdr = bytes(12)
+    LOOPS = [("pointer to itself", hdr + b"\xc0\x0c", 12, None), ("two pointers to one another", hdr + b"\xc0\x0e\xc0\x0c", 12, None),
+             ("label, then a pointer back behind the label", hdr + b"\x01a\xc0\x0e\xc0\x0e", 12, None),
+             ("three-pointer cycle", hdr + b"\xc0\x0e\xc0\x10\xc0\x0c", 12, None),
+             ("control: ordinary compressed name", hdr + b"\x03www\x00" + b"\x01a\xc0\x0c", 17, b"a.www")]
+    OUT = MEM0 + 5000
+    for what, pkt, start, expect in LOOPS:
+        env = {"#typed": 1, "#bytemem": 1, f.params[0][0]: MEM0, f.params[1][0]: len(pkt), f.params[2][0]: PRef(None, "#idx"), "#idx": start, f.params[3][0]: OUT, f.params[4][0]: 64}
+        mem_put(env, MEM0, pkt, terminate=False)
+        for k in range(64):
+            env[("m", OUT + k)] = 0x2a
+        outs = [o for o in run_all(f, (f.entry, 0), env, lambda el: False, P, mem_hook(P), max_steps=3000) if not (o.kind == "exit" and o.why == "noreturn")]
+        res = []
+        for o in outs:
+            if o.kind == "ret":
+                try:
+                    v = evalx(normx(o.at.e[1]), o.env, P)
+                except Exception:
+                    v = None
+                if isinstance(v, int) and v >= 1 << 31:
+                    v -= 1 << 32
+                res.append(v)
+            else:
+                res.append("%s: %s" % (o.kind, o.why))
+        r.inst(("loop", what), {"packet": pkt.hex(), "name_starts_at": start, "what": what, "outcome": res})
+        if expect is None:
+            if any(isinstance(x, str) and ("step limit" in x or x.startswith("dup")) for x in res):      # dup: the very same state reached again - a proof that it does not end
+                r.bad("K4:%s:pointer-loop-not-terminated" % name, "%s:%d" % (f.file, f.line), name,
+                      "a name that runs into a compression-pointer cycle (%s; packet %s, name at offset %d) keeps the parser going for ever (the evaluation reaches the same state again, or exceeds 3000 steps on a %d-byte packet): the jump counter does "
+                      "not stop it (the resolver would spin with its lock held)" % (what, pkt.hex(), start, len(pkt)))
+            elif res != [-1]:
+                if any(isinstance(x, str) for x in res):
+                    r.brk("%s not evaluable on a pointer loop (%s): %s" % (name, what, res))
+                else:
+                    r.bad("K4:%s:pointer-loop-accepted" % name, "%s:%d" % (f.file, f.line), name, "a name that is a compression-pointer cycle (%s) is not refused: returns %s" % (what, res))
+        else:
+            got = None
+            if res == [0]:
+                from .cmem import mem_str
+                got = mem_str(outs[0].env, OUT)
+            if got != expect:
+                r.brk("%s: control packet not parsed as %r (returns %s, name %r): the evaluation set-up is wrong" % (name, expect, res, got))
     # a jump target is range-checked
     jt = [el for el, lhs, op, rhs in f.stores() if is_e(strip(lhs), "var") and strip(lhs)[1] == "j" and any(is_e(q, "bin") and q[1] == "<<" for q in walk(rhs))]
     for el in jt:
